@@ -569,11 +569,21 @@ struct Engine
             logdir::RotName rn = logdir::parse_rotated(name, stem, suffix);
             if (rn.ok && !rn.gz && b.path && active_rel == b.path) {
                 cur_X = name;
-                // everything accepted before this operation's own record
+                // what the renamed file holds at this moment is what the rotated segment must keep holding
+                // (whether it is the right content is judged after the operation, against the records);
+                // the reference - everything accepted before this operation's own record - is the fall-back
                 std::vector<int> before = pending;
                 if (!before.empty() && recs[before.back()].op == cur_op)
                     before.pop_back();
                 cur_X_expected = rec_stream(before);
+                {
+                    std::string now;
+                    if (logdir::read_file(logdir_path + "/" + name, now)) {
+                        std::string all = rec_stream(pending);
+                        if (all.compare(0, now.size(), now) == 0 && now.size() <= all.size())
+                            cur_X_expected = now;
+                    }
+                }
                 cur_X_mtime = logdir::mtime_ns(logdir_path + "/" + name);
                 if (is("C06") && P.N == 1 && !fault_mode)
                     fail("rotated-with-n1", "a rotated file (" + name + ") was produced although the file-count limit is 1");
@@ -689,8 +699,15 @@ struct Engine
         // 1b. the file rotated in this very operation is already gone again
         if (!cur_X.empty() && !rot.count(cur_X) && !fault_mode) {
             std::vector<int> keep;
-            if (!pending.empty() && recs[pending.back()].op == cur_op && kind == "write")
-                keep.push_back(pending.back());
+            {
+                // the records that did not go into the vanished file stay expected in the active file
+                size_t acc = 0, j = 0;
+                while (j < pending.size() && acc < cur_X_expected.size()) {
+                    acc += recs[pending[j]].bytes.size() + 1;
+                    j++;
+                }
+                keep.assign(pending.begin() + j, pending.end());
+            }
             rotations++;
             removals++;
             projh("rot-rm");
